@@ -379,7 +379,7 @@ def illtyped_cases(draw, tier):
             "mode": draw(st.sampled_from(
                 ["offset", "cod", "dom", "lengths", "non-int", "negative",
                  "swap-composite", "cup-non-adjoint", "cup-composite",
-                 "not-a-type"])),
+                 "not-a-type", "empty", "empty"])),
             "t": draw(gen.types(cls, 1, 2, gen.CLASS_NAMES.get(
                 cls, gen.NAMES)))}
 
@@ -421,7 +421,21 @@ def check_illtyped(case):
             return dict(nt=True, labels=[label], show=common.show(good))
         raise Violation("C01:ill-typed-request-accepted",
                         "offsets {} for {} gave {}".format(bad, good, value))
-    if mode == "cod":
+    if mode == "empty":
+        # no boxes at all: the codomain has to be the domain
+        for a in (sc[0], sc[-1], []):
+            wrong = a + case["t"]
+            if cls == "cat":
+                if not a:
+                    continue
+                wrong = [[str(a[0][0]) + "'", 0]]
+            refuse(lambda: ctor(a, wrong, [], []),
+                   "no boxes, {} -> {}".format(a, wrong))
+            refuse(lambda: ctor(wrong, a, [], []),
+                   "no boxes, {} -> {}".format(wrong, a))
+            value = ctor(a, a, [], [])
+            specs.well_typed(value, "box-less constructor")
+    elif mode == "cod":
         wrong = sc[-1] + case["t"]
         refuse(lambda: ctor(sc[0], wrong, boxes, offsets), "wrong cod")
     elif mode == "dom":
